@@ -1,0 +1,27 @@
+//go:build verif
+
+package forward
+
+import "sync/atomic"
+
+// verifYieldHook is the callback installed by the verification harness
+// (build tag verif only); nil by default, in which case verifYield does nothing.
+var verifYieldHook atomic.Pointer[func(string)]
+
+// verifYield marks a point of the production code the harness wants to
+// observe or park at (here: the end of a connection's read loop, after its
+// deferred cleanup ran).
+func verifYield(name string) {
+	if f := verifYieldHook.Load(); f != nil {
+		(*f)(name)
+	}
+}
+
+// VerifSetYield installs (or, with nil, removes) the callback.
+func VerifSetYield(f func(string)) {
+	if f == nil {
+		verifYieldHook.Store(nil)
+		return
+	}
+	verifYieldHook.Store(&f)
+}
